@@ -39,7 +39,7 @@ CLAIMED = {
    text="Model checking over complete index sets: for every depth 0..10 (quick) / 0..12 (thorough) EVERY RING index r and every NESTED cell: from_ring(r) is in range, its lattice centre equals the exact integer centre that the RING order (latitude descending, longitude ascending, 4i cells in polar ring i) assigns to rank r, to_ring inverts it, to_ring(h) equals the rank of the centre of h and from_ring inverts it (=> bijection outright on these depths); RING-scheme and NESTED centres agree to 4e-15. Depths up to 29: ~900 rings per depth (first rings, powers of two +-1, cap/transition/equator classes, 800 spread rings) x first/last/quarter-boundary indices +-2 and border-class NESTED cells; thorough adds EVERY polar ring boundary (north and south) of depths 26 and 29.",
    note="Trusted: exact integer RING model R3 (u128, exact integer square root), self-checked against the lattice model R2 for nside 1..16."),
  "C11": dict(tech=S, ref="4/C11",
-   text="Model checking, stateless shape: for EVERY nside in 1..40 (quick) / 1..160 (thorough) every cell: projected centre = exact R3 lattice centre (=> order, 4i / 4 nside ring cardinalities), hash(centre) = cell, sph_coo at 5 offsets; 11 lattice points per cell (vertices, edge mid-points, centre, interior; 3x3 ulp nudges for nside <= 16) through hash / hash_with_dxdy / sph_coo (range, containment in the R3 diamond, offsets in [0,1], inverse); 33 large nside values up to 2^29 (primes, odd, 2^k+-1) on ring-boundary class cells; out-of-range hashes and latitudes rejected. Positions on the polar-cap seams matching the listed known finding KF-2 are reported as KNOWN-FINDING only, for ring::hash / hash_with_dxdy only.",
+   text="Model checking, stateless shape: for EVERY nside in 1..40 (quick) / 1..160 (thorough) every cell: projected centre = exact R3 lattice centre (=> order, 4i / 4 nside ring cardinalities), hash(centre) = cell, sph_coo at 5 offsets; 11 lattice points per cell (vertices, edge mid-points, centre, interior; 3x3 ulp nudges for nside <= 16) through hash / hash_with_dxdy / sph_coo (range, containment in the R3 diamond, offsets in [0,1], inverse); 33 large nside values up to 2^29 (primes, odd, 2^k+-1) on ring-boundary class cells; out-of-range hashes and latitudes rejected.",
    note="Trusted: R3 and R1. nside values not listed, and positions away from the enumerated lattice points, are outside the bound."),
  "C12": dict(tech=S, ref="4/C12",
    text="Model checking, stateless shape: every (polygon, depth 0..6 / 0..9, approx / exact mode) with polygons = regular n-gons (convex), star-shaped variants, thin triangles and kites in every cyclic vertex order, both windings, 2-3 rotations, 7 circumradii 1e-4..0.79 around 15 / 22 centres (lon ~ 0 / 2pi crossings, seams, transition parallels, polar caps short of the poles): result well formed; cell of every vertex covered; every cell flagged full of a convex polygon has its 4 vertices and centre inside (orientation-anchored great-circle test, 1e-9 margin); tightness for circumradius < 0.3; Polygon::contains against the geometric definition on 326 probes per convex polygon (1e-7 margin from the edge circles).",
@@ -79,7 +79,7 @@ ADDED = {
  "C08": " Later additions: the size sweep, merge cascades and coverage-sized operands of C07 with mixed flags." + SEQ,
  "C09": " Later additions: size sweep and merge cascades through all views." + SEQ,
  "C10": " Later additions: EVERY polar ring (last index, first of the next, one generic index) of depths 12..18 (quick) / 14..29 (thorough); carry-chain NESTED cells." + SEQ,
- "C11": " Later additions: nside SWEEP, every nside 1..40000 (quick) / 2^20 (thorough) on 18 key cells + the six public layout constants (n_hash, n_isolatitude_rings, first_hash_*) against R3." + SEQ,
+ "C11": " The former known finding KF-2 is repaired (fix 5b063a3). Later additions: nside SWEEP, every nside 1..40000 (quick) / 2^20 (thorough) on 18 key cells + the six public layout constants (n_hash, n_isolatitude_rings, first_hash_*) against R3." + SEQ,
  "C12": " Later additions: deep polygons (depths to 29), longitude representations (+-2pi, +6pi, unwrapped across lon = 0)." + SEQ,
  "C13": " Later additions: deep tier (depths 9..29, ellipses 0.3..31 cells across), deep-large tier (thousands of cells across). KF-1 repaired (fix f1d7abd)." + SEQ,
  "C14": " Later additions: delta_depth 5, 8, 9, 13, 17 and a sweep of every delta_depth 4..12 / 16; carry-chain cells; the two public direction helpers of lib.rs checked directly and exhaustively on every border cell x outward neighbour." + SEQ,
@@ -114,7 +114,7 @@ m = {
  ],
  "checks": [],
  "not_applicable": [],
- "notes": "Driver: ./check <ID> --tier quick|thorough; ./check <ID> --replay <file>. Known finding KF-2 (C11) and the list of repaired defects: known_findings.json (never written at run time).",
+ "notes": "Driver: ./check <ID> --tier quick|thorough; ./check <ID> --replay <file>. known_findings.json lists no open finding (21 repaired defects under fixed); it is never written at run time.",
 }
 for p in props:
     i = p["id"]
